@@ -717,6 +717,10 @@ func processFuncProvider(fset *token.FileSet, fn *types.Func) (*Provider, []erro
 }
 
 func injectorFuncSignature(sig *types.Signature) (*types.Tuple, outputSignature, error) {
+	if sig.Recv() != nil {
+		// The generated injector is emitted as a plain function.
+		return nil, outputSignature{}, errors.New("injector functions may not be methods")
+	}
 	if sig.TypeParams().Len() > 0 {
 		// The generated injector is emitted without a type parameter list.
 		return nil, outputSignature{}, errors.New("injector functions may not have type parameters")
